@@ -63,3 +63,29 @@ Theorem pkg_ok_sound : forall builtins pkg, pkg_ok builtins pkg = true ->
   forall m, In m pkg -> exec_pkg builtins pkg (size pkg) m = Ok tt.
 Proof. exact pkg_ok_sound. Qed.
 Print Assumptions pkg_ok_sound.
+
+(* The generator at skeleton level for the models sub-package (Model/GenModels.v, tied to the real ModelsEmitter by
+   Corr.C01.run_models).  The general statement
+       forall builtins root sp, acyclic_refs sp = true -> names_ok root sp = true ->
+         pkg_ok_with builtins (gen_models_skeleton root sp) (models_order root sp) = true
+   is NOT proved (see Proofs/GenModels.v and the manifest); it is evaluated on every generated spec of the modelled
+   fragment on every run.  Proved: a closed instance with every kind of reference, with the corollary (through
+   pkg_ok_with_sound) that all its modules import, and the cyclic counterpart. *)
+From PG Require Import Model.GenModels Proofs.GenModels.
+Theorem pkg_ok_with_sound : forall builtins pkg order, pkg_ok_with builtins pkg order = true ->
+  forall m, In m pkg -> exec_pkg builtins pkg (size pkg) m = Ok tt.
+Proof. exact pkg_ok_with_sound. Qed.
+Print Assumptions pkg_ok_with_sound.
+
+Theorem C01_models_instance_imports : forall m, In m (gen_models_skeleton g_root g_spec) ->
+  exec_pkg builtin_names (gen_models_skeleton g_root g_spec) (size (gen_models_skeleton g_root g_spec)) m = Ok tt.
+Proof. exact models_instance_imports. Qed.
+Print Assumptions C01_models_instance_imports.
+
+Theorem C01_models_cyclic_F01a :
+  acyclic_refs g_cyc = false /\
+  pkg_ok builtin_names (gen_models_skeleton g_root g_cyc) = false /\
+  exec_pkg builtin_names (gen_models_skeleton g_root g_cyc) (size (gen_models_skeleton g_root g_cyc))
+           (mkMod (g_root ++ [s_models; n_a]) []) = Fail EImport.
+Proof. exact models_cyclic. Qed.
+Print Assumptions C01_models_cyclic_F01a.
